@@ -14,6 +14,7 @@ class Gen:
         self.r = random.Random(seed)
         self.variant = variant
         self.dropping = variant % 2 == 1
+        self.unbounded = variant >= 2
         self.qcap = qcap
         self.focus = focus or self.r.choice(["mixed", "mixed", "order", "flush", "faults", "levels", "threads", "loggers", "backtrace", "pressure"])
         self.lines = []
@@ -22,6 +23,7 @@ class Gen:
         self.nsinks = 0
         self.loggers = {}   # gid -> sinks
         self.max_len = qcap - 40
+        self.qmax = 4096
 
     def emit(self, s):
         self.lines.append(s)
@@ -77,6 +79,8 @@ class Gen:
         r = self.r
         if self.focus == "pressure":
             return r.choice([100, 150, 200, 230, 300, self.max_len, self.max_len - 1, 20])
+        if self.unbounded:
+            return r.choice([5, 20, 60, 150, 300, 300, 450, 700, 900, 1500, 2500, 3900, self.qmax - 37, self.qmax - 36, self.qmax + 50])
         return r.choice([5, 10, 20, 20, 40, 60, 100, 150, 200, 300, self.max_len] + ([self.qcap + 10] if self.dropping else []))
 
     def rnd_dt(self):
@@ -95,6 +99,10 @@ class Gen:
             if f in ("faults", "mixed") and r.random() < 0.2:
                 return "LN %d %d %d" % (a, g, r.choice([5, 20, 60]))
             return "%s %d %d %d %d" % ("L" if r.random() < 0.8 else "LS", a, g, lvl, self.rnd_len())
+        if self.unbounded and w > 0.97:
+            # a capacity query right before a shrink request so that the oracle knows the capacity the request meets
+            self.emit("QC %d" % a)
+            return "SH %d %d" % (a, r.choice([512, 1024, 256, 2048, 600]))
         if w < 0.55:
             return "K %d" % self.rnd_dt()
         if w < 0.65:
@@ -377,11 +385,30 @@ def oracles(lines):
     flushed_after = {}  # sink -> index in write_order at the time of its last flush
     last_write_idx = {}  # id -> index in write_order
     loggers_sinks = {g: list(d["sinks"]) for g, d in rec["loggers"].items()}
+    last_cap = {}
+    unknown_outcomes = [0]
 
     def handle_front(w, res, t_now):
         nonlocal dyn_cfg_changes, dropped_log_calls, removed_loggers, backtrace_used
         op = w[0]
         if res in ("noop", "bad-op"):
+            return
+        if op == "QC":
+            m = re.match(r"cap=(\d+)", res)
+            if m:
+                last_cap[int(w[1])] = int(m.group(1))
+            return
+        if op == "SH":
+            m = re.match(r"cap=(\d+)", res)
+            a = int(w[1])
+            if m and a in last_cap:
+                before, want, after = last_cap.pop(a), int(w[2]), int(m.group(1))
+                p2 = 1
+                while p2 < want:
+                    p2 *= 2
+                expect = p2 if want <= before // 2 else before
+                if after != expect:
+                    viol.append(("C20", "shrink request of actor %d to %d with capacity %d: capacity reported afterwards %d, expected %d" % (a, want, before, after, expect)))
             return
         if op in ("L", "LS", "LB", "LN"):
             m = re.match(r"id=(\d+)", res)
@@ -445,20 +472,31 @@ def oracles(lines):
             st["ret"] = None
             st["skipped"] = True
             return
+        if "threw" in res:
+            st["ret"] = False      # rejected with an error: must never be delivered; not a counted drop
+            st["threw"] = True
+            live_logged.add(st["actor"])
+            return
         if "ret=0" in res:
             st["ret"] = False
             dropped_log_calls += 1
             live_logged.add(st["actor"])
             return
-        if "ret=1" in res or ("bytes=" in res and not res.endswith("bytes=0")):
+        if "ret=1" in res or ("bytes=" in res and not res.endswith("bytes=0")) or (
+                st["op"] in ("LS", "LB", "LN") and "bytes=" not in res and "ev=1" in res and cfg.get("variant", 0) == 2):
             st["ret"] = True
             st["enq"] = t_now
             live_logged.add(st["actor"])
             complete[i] = order_idx[0]
             order_idx[0] += 1
+        elif st["op"] in ("LS", "LB", "LN") and "bytes=" not in res and "ev=1" in res:
+            st["ret"] = "unknown"   # unbounded dropping build: a macro without return value, outcome not observable here
+            unknown_outcomes[0] += 1
+            live_logged.add(st["actor"])   # the reservation was attempted: the context exists
         elif st["op"] in ("LS", "LB", "LN") and res.endswith("bytes=0") and "ev=1" in res:
             st["ret"] = False   # static macro on a dropping queue: dropped
             dropped_log_calls += 1
+            live_logged.add(st["actor"])
 
     def check_flush_done(a):
         fw = flush_wait.pop(a, None)
@@ -511,8 +549,11 @@ def oracles(lines):
             dropped_reported += int(e.split(":")[2])
 
     xs_seen = False
-    for (w, res, evs) in rec["ops"]:
+    q_snaps = []
+    for k_op, (w, res, evs) in enumerate(rec["ops"]):
         op = w[0]
+        if op == "Q":
+            q_snaps.append((k_op, res, set(live_logged), set(exited), set(pending_by_actor.keys()) | set(flush_wait.keys())))
         if op == "K":
             now += int(w[1])
             continue
@@ -579,7 +620,9 @@ def oracles(lines):
                 sk = rec["sinks"].get(s)
                 if sk and accepts(sk, st, i) and written.get((s, i), 0) == 0:
                     viol.append(("C08" if dropping else "C03", "accepted statement id=%d (actor %d) never reached sink %d" % (i, st["actor"], s)))
-    if dropping and not backtrace_used and xs_seen:
+                    if st["actor"] in exited:
+                        viol.append(("C20", "statement id=%d of exited thread %d was accepted but never delivered to sink %d (its context was reclaimed or skipped with the statement pending)" % (i, st["actor"], s)))
+    if dropping and not backtrace_used and xs_seen and cfg.get("variant", 0) == 1 and not unknown_outcomes[0]:
         if dropped_reported != dropped_log_calls:
             viol.append(("C08", "dropped log calls: %d, reported through the notifier: %d" % (dropped_log_calls, dropped_reported)))
     # ---- C05: global order under the premise ---------------------------------------------------------------------
@@ -596,15 +639,13 @@ def oracles(lines):
                     if prev is not None and ts < prev[1]:
                         viol.append(("C05", "sink %d: id=%d (ts=%d) written after id=%d (ts=%d)" % (s, i, ts, prev[0], prev[1])))
                     prev = (i, ts)
-    # ---- C20: retained contexts after the drain ---------------------------------------------------------------------
-    qs = [(k, res) for k, (w, res, evs) in enumerate(rec["ops"]) if w[0] == "Q"]
-    if qs and not removed_loggers:
-        k, res = qs[-1] if not xs_seen else qs[-1]
+    # ---- C20: retained contexts after the drain -------------------------------------------------------------------
+    if q_snaps and not removed_loggers:
+        k, res, live_then, exited_then, parked_then = q_snaps[-1]
         m = re.search(r"contexts=(\d+)", res)
-        parked = set(pending_by_actor.keys()) | set(flush_wait.keys())
-        if m and not parked:
-            expect = len([a for a in live_logged if a not in exited])
-            # only when the last Q comes after the long drain of finish()
+        if m and not parked_then:
+            expect = len([a for a in live_then if a not in exited_then])
+            # only a Q that comes right after the long drain of finish() (or right before the final X)
             if len(rec["ops"]) - k <= 6 and int(m.group(1)) != expect:
                 viol.append(("C20", "after the drain %s contexts are retained but %d live threads have logged" % (m.group(1), expect)))
     return viol
